@@ -36,7 +36,7 @@ ASSUMPTIONS = ['an Update/Remove addressed to a negative row id nobody created i
                'without the id, None when empty); no two-way reference columns',
                'updates/removals never address a row that was removed earlier in the bundle or an unknown positive id']
 BUDGET = {'quick': dict(examples=3000, shards=12, max_seconds=32),
-          'thorough': dict(examples=60000, shards=16, max_seconds=420)}
+          'thorough': dict(examples=27000, shards=16, max_seconds=1800)}
 SHRINK_BUDGET = {'quick': 120, 'thorough': 400}
 
 TABLES = ['Tab1', 'Tab2']
